@@ -1,7 +1,7 @@
 //! C16 An I/O error stops the writer cleanly and never corrupts the database.
 
 use super::{c02::*, *};
-use crate::{image::*, interp::*, runner::*, spec::*};
+use crate::{gen::{mixed_cfg, mixed_items}, image::*, interp::*, runner::*, spec::*};
 use proptest::prelude::*;
 use serde::{Deserialize, Serialize};
 use std::path::Path;
@@ -19,7 +19,7 @@ pub fn def() -> PropDef {
 		replay,
 		shards: default_shards,
 		watchdog_s: default_watchdog,
-		engine: 2,
+		engine: 5,
 	}
 }
 
@@ -205,7 +205,191 @@ fn fault_case() -> impl Strategy<Value = FaultCase> {
 		.prop_map(|(sc, sample_seed)| FaultCase { sc, sample_seed, only: None })
 }
 
+/// Real worker threads and a real errno: inside the `pdbv_io` binary the interposed write /
+/// fdatasync / fsync / msync / ftruncate / unlink / mmap calls on the database's files succeed
+/// `fail_after` more times and then fail with EIO, on whatever thread they are made - also at
+/// call sites the library's own injector does not wrap.
+#[derive(Clone, Debug, Serialize, Deserialize)]
+pub struct EioCase {
+	/// only Commit ops
+	pub sc: Scenario,
+	pub fail_after: u16,
+	pub pauses_us: Vec<u16>,
+}
+
+fn eio_case() -> impl Strategy<Value = EioCase> {
+	(mixed_cfg(2, false), prop_oneof![2 => 0u16..40, 3 => 40u16..400, 1 => 400u16..2000], proptest::collection::vec(prop_oneof![2 => Just(0u16), 2 => 1u16..500, 1 => 500u16..3000], 1..5), 0u8..3).prop_flat_map(
+		|(mut cfg, fail_after, pauses_us, af)| {
+			cfg.always_flush = af > 0;
+			proptest::collection::vec(mixed_items(&cfg, 12, 20_000, 5, 0).prop_map(Op::Commit), 8..40).prop_map(move |ops| EioCase { sc: Scenario { cfg: cfg.clone(), ops }, fail_after, pauses_us: pauses_us.clone() })
+		},
+	)
+}
+
+pub fn run_eio_case(case: &EioCase, dir: &Path) -> CaseResult {
+	use crate::iotrack;
+	let mut out = CaseOut::default();
+	if !super::c12::iotrack_available() {
+		fail!("harness-io", "the EIO sub-run of C16 must run inside the pdbv_io binary (syscall interposers missing)")
+	}
+	let sc = &case.sc;
+	let work = dir.join("work");
+	let shadow = dir.join("shadow");
+	let _ = std::fs::remove_dir_all(&work);
+	std::fs::create_dir_all(&work).map_err(|e| Failure::new("harness-io", e.to_string()))?;
+	let _ = take_panics();
+	// the tracker only serves to resolve msync addresses to files here
+	iotrack::start(&work, &shadow, false);
+	let mut it = Interp::new(&sc.cfg, &work, Interp::universe_of(sc));
+	it.background = true;
+	it.keep_prefix = true;
+	it.check_every_op = false;
+	let r: Res<(usize, usize, bool)> = (|| {
+		it.open()?;
+		it.fault_armed = true;
+		iotrack::eio_arm(&work, case.fail_after as i64);
+		let mut refused_at: Option<usize> = None;
+		let mut accepted_after_refusal = None;
+		let mut i = 0usize;
+		for op in sc.ops.iter().filter(|o| matches!(o, Op::Commit(_))) {
+			match it.step(op)? {
+				StepOut::Faulted(_) =>
+					if refused_at.is_none() {
+						refused_at = Some(i);
+					},
+				_ =>
+					if refused_at.is_some() && accepted_after_refusal.is_none() {
+						accepted_after_refusal = Some(i);
+					},
+			}
+			let p = case.pauses_us[i % case.pauses_us.len()];
+			if p > 0 {
+				std::thread::sleep(std::time::Duration::from_micros(p as u64));
+			}
+			i += 1;
+		}
+		if let (Some(a), Some(b)) = (refused_at, accepted_after_refusal) {
+			fail!("commit-accepted-after-background-error", "commit {a} was refused with a background error but the later commit {b} was accepted")
+		}
+		// let the workers run into the fault / finish (bounded wait, not an oracle)
+		let t0 = std::time::Instant::now();
+		while t0.elapsed() < std::time::Duration::from_secs(5) {
+			let st = it.db().verif_pipeline_state();
+			// without always_flush the workers stop after logging
+			if st.5 || (st.0 == 0 && (!sc.cfg.always_flush || (st.2 <= 0 && st.3 == 0 && !st.4))) {
+				break
+			}
+			std::thread::sleep(std::time::Duration::from_millis(2));
+		}
+		// the failure must be reported: once a file call of a worker has failed, commits are
+		// refused - at the latest after a worker has had to touch the files again (every call
+		// fails from the first failure on, so no accepted commit can get anywhere)
+		if iotrack::EIO_FAILED_CALLS.load(std::sync::atomic::Ordering::SeqCst) > 0 && refused_at.is_none() {
+			let mut refused = false;
+			for probe in sc.ops.iter().filter(|o| matches!(o, Op::Commit(_))).cycle().take(8) {
+				if let StepOut::Faulted(_) = it.step(probe)? {
+					refused = true;
+					break
+				}
+				std::thread::sleep(std::time::Duration::from_millis(150));
+			}
+			if !refused {
+				fail!("io-error-never-reported", "file calls of the workers fail with EIO (from the {}th on) but 8 further commits, 150 ms apart, were all accepted", case.fail_after)
+			}
+			refused_at = Some(i);
+		}
+		let errored = it.db().verif_pipeline_state().5;
+		// reads keep returning what was accepted
+		it.fault_armed = false;
+		it.relaxed_dead = true;
+		it.check_reads(false).map_err(|f| Failure::new(format!("after-io-error:{}", f.sig), format!("with EIO from the {}th file call on: {}", case.fail_after, f.detail)))?;
+		Ok((it.committed, refused_at.unwrap_or(usize::MAX), errored))
+	})();
+	let (accepted, refused_at, errored) = match r {
+		Ok(v) => v,
+		Err(f) => {
+			iotrack::eio_disarm();
+			it.close();
+			let _ = iotrack::stop();
+			return Err(f)
+		},
+	};
+	// drop with the fault still present: must return, must not panic
+	let prefix = it.prefix.clone();
+	let addr = it.addr.clone();
+	let universe = it.universe.clone();
+	let (tx, rx) = std::sync::mpsc::channel();
+	let handle = std::thread::spawn(move || {
+		it.close();
+		drop(it);
+		let _ = tx.send(());
+	});
+	let returned = rx.recv_timeout(std::time::Duration::from_secs(120)).is_ok();
+	let failed_calls = iotrack::eio_disarm();
+	let _ = iotrack::stop();
+	if !returned {
+		// the blocked helper thread is left behind
+		fail!("drop-did-not-return-after-io-error", "dropping the handle did not return within 120 s with EIO from the {}th file call on (background error set: {errored})", case.fail_after)
+	}
+	let _ = handle.join();
+	let panics = take_panics();
+	if let Some(p) = panics.first() {
+		fail!(format!("panic@{}", p.split(':').take(2).collect::<Vec<_>>().join(":")), "panic on some thread with EIO from the {}th file call on: {p}", case.fail_after)
+	}
+	let _ = std::fs::remove_dir_all(&shadow);
+	// restart without the fault
+	let info = ImageInfo {
+		faulted: true,
+		committed: accepted,
+		synced: 0,
+		cleaned: 0,
+		cleaned_or_enacted: 0,
+		last_enacted_record: 0,
+		had_log: true,
+		cut_inside: false,
+		prefix,
+		addr,
+		universe,
+		labels: Default::default(),
+	};
+	let sp = StopPoint { op: 0, n: 0, cut: None, recover_n: vec![] };
+	let rec = recover_and_check(sc, &info, &sp, &work, dir, 0).map_err(|f| Failure::new(format!("eio:{}", f.sig), format!("restart after EIO from the {}th file call on ({accepted} commits accepted): {}", case.fail_after, f.detail)))?;
+	let p = rec.prefix_index;
+	if rec.candidates.len() == 1 {
+		let mut it = rec.interp;
+		let r: Res<()> = (|| {
+			it.check_reads(true)?;
+			for op in sc.ops.iter().take(2) {
+				it.step(op)?;
+			}
+			it.step(&Op::Drain)?;
+			it.check_reads(true)?;
+			it.step(&Op::Reopen)?;
+			it.check_reads(true)?;
+			Ok(())
+		})();
+		r.map_err(|f| Failure::new(format!("eio:after-recovery:{}", f.sig), format!("recovered at prefix {p} after EIO from the {}th file call on: {}", case.fail_after, f.detail)))?;
+	}
+	out.count("eio_failed_calls", failed_calls);
+	out.count(&format!("accepted_minus_recovered:{}", (accepted as i64 - p as i64).clamp(0, 4)), 1);
+	if errored {
+		out.label("background-error-reached");
+	}
+	if refused_at != usize::MAX {
+		out.label("commit-refused");
+	}
+	out.label("real-worker-threads-eio");
+	out.nontrivial = failed_calls > 0;
+	Ok(out)
+}
+
 fn run(ctx: &Ctx) {
+	if super::c12::iotrack_available() {
+		let n = scaled(ctx, 320, 20_000);
+		if !ctx.run_prop_shrink("eio-threads", n, 10, eio_case(), |c, dir| guarded(|| run_eio_case(c, dir))) {
+			return
+		}
+	}
 	let thorough = ctx.tier == "thorough";
 	let cap = if thorough { 400 } else { 120 };
 	let n = scaled(ctx, 56, 2_800);
@@ -213,6 +397,15 @@ fn run(ctx: &Ctx) {
 }
 
 fn replay(ctx: &Ctx, path: &Path) -> Result<(), Failure> {
+	let v: serde_json::Value = serde_json::from_str(&std::fs::read_to_string(path).map_err(|e| Failure::new("bad-replay", e.to_string()))?).map_err(|e| Failure::new("bad-replay", e.to_string()))?;
+	if v.get("sub").and_then(|s| s.as_str()) == Some("eio-threads") {
+		let (_sub, c): (String, EioCase) = load_replay(path).map_err(|e| Failure::new("bad-replay", e))?;
+		for _ in 0..10 {
+			let dir = ctx.case_dir();
+			guarded(|| run_eio_case(&c, &dir)).map(|_| ())?;
+		}
+		return Ok(())
+	}
 	let (_sub, c): (String, FaultCase) = load_replay(path).map_err(|e| Failure::new("bad-replay", e))?;
 	let dir = ctx.case_dir();
 	guarded(|| run_fault_case(&c, &dir, 400)).map(|_| ())
